@@ -256,7 +256,24 @@ def gen_plan(r, tier, index):
             pb["handles"][0].update({"lib": 1, "readonly": False})
             hb = 0
         pb["script"] = [dict(_w(hb, pb["pid"], "x", stall=0.02), think=r.choice([0, 0.01, 0.03])) for _ in range(4)]
+    # A fourth directed scenario: a put whose block goes to the device in several raw writes (tiny raw buffer) is cut short by
+    # a full disk; the session body catches the error and carries on putting.  The session completes: everything it put
+    # AFTER the failed put has to be there, exact.
+    caught_partial = None
+    if (same_size is None and ship_dirty is None and not retarget and not create_race and r.random() < 0.05
+            and not any("ships" in p_ or "adopts" in p_ for p_ in procs)):
+        pa_ = procs[0]
+        h0_ = pa_["handles"][0]
+        h0_.update({"readonly": False, "coll_bufsize": r.choice([-1, 0]), "pickled": False})
+        ops_ = []
+        for q_ in range(4):
+            tag += 1
+            ops_.append({"op": "put", "k": f"p{pa_['pid']:02d}c0k{tag:04d}", "v": [tag, r.choice([200, 200, 3000])]})
+        pa_["script"] = [{"h": 0, "kind": "w", "catch": True, "think": 0, "timeout": None, "ops": ops_}] + pa_["script"][:2]
+        caught_partial = pa_["pid"]
     faults = []
+    if caught_partial is not None:
+        faults.append({"kind": "enospc", "pid": caught_partial, "op": "write", "nth": r.choice([2, 3, 4, 5]), "phase": "s0:body", "arg": r.randrange(7, 150)})
     if same_size is not None:
         faults.append({"kind": "eio", "pid": procs[same_size]["pid"], "op": "write", "nth": 1, "phase": "s0:exit", "arg": 1})
     wsessions = [(pi, si) for pi, p in enumerate(procs) for si, s in enumerate(p["script"]) if s["kind"] == "w"]
@@ -291,9 +308,9 @@ def gen_plan(r, tier, index):
                            "nth": r.choice([1, 1, 2, 3]), "phase": f"s{si}:" + r.choice(["exit", "exit", "body"]),
                            "arg": r.randrange(1, 5000)})
     plan = {
-        "check": CHECK, "directed": "lost-close-then-same-size-append" if same_size is not None else ("name-re-pointed-to-the-other-library" if retarget else None),
+        "check": CHECK, "directed": "lost-close-then-same-size-append" if same_size is not None else ("name-re-pointed-to-the-other-library" if retarget else ("put-cut-short-then-caught" if caught_partial is not None else None)),
         "master_overwrite": r.random() < 0.2,
-        "bufsize": r.choice([8192, 4096, 4096, 65536, 64]), "payload": r.choice(["dict", "dict", "dict", "mol"]),
+        "bufsize": 64 if caught_partial is not None else r.choice([8192, 4096, 4096, 65536, 64]), "payload": r.choice(["dict", "dict", "dict", "mol"]),
         "nlibs": nlibs, "create_race": create_race, "procs": procs, "faults": faults,
         "latency": r.choice([0, 0, 0, 0.0005, 0.004]),
         "sched": {"seed": r.randrange(1 << 30),
